@@ -183,16 +183,19 @@ Fixpoint join (sep : bytes) (l : list bytes) : bytes :=
   | x :: r => x ++ sep ++ join sep r
   end.
 
-(** the row loop: returns (rows written, body, truncated) *)
-Fixpoint row_loop (cell_cap row_cap budget : N) (rows : list (list cell)) (n : N) (body : bytes)
-  : N * bytes * bool :=
+(** the row loop: returns (rows written, their lines in order, truncated);
+    [bl] is body.Len() so far (the lines are concatenated once at the end, which
+    keeps the evaluation linear) *)
+Fixpoint row_loop (cell_cap row_cap budget : N) (rows : list (list cell)) (n : N) (bl : N)
+  : N * list bytes * bool :=
   match rows with
-  | [] => (n, body, false)
+  | [] => (n, [], false)
   | r :: rest =>
-      if row_cap <=? n then (n, body, true)
+      if row_cap <=? n then (n, [], true)
       else let line := join [44] (map (cell_to_string cell_cap) r) in
-           if budget <? blen body + blen line + 1 then (n, body, true)
-           else row_loop cell_cap row_cap budget rest (n + 1) (body ++ line ++ [10])
+           if budget <? bl + blen line + 1 then (n, [], true)
+           else let '(n', ls, t) := row_loop cell_cap row_cap budget rest (n + 1) (bl + blen line + 1) in
+                (n', (line ++ [10]) :: ls, t)
   end.
 
 Definition s_rows : bytes := [32; 114; 111; 119; 115; 93].                 (* " rows]" *)
@@ -215,16 +218,16 @@ Definition format_rows (cell_cap row_cap byte_cap : N) (cols : list bytes)
   let budget := N.max (byte_cap - reserve) 1 in
   let h := join [44] cols in
   let '(header, t0) := if budget <? blen h + 1 then (firstn (N.to_nat (budget - 1)) h, true) else (h, false) in
-  let '(n, body, t1) := row_loop cell_cap row_cap budget rows 0 (header ++ [10]) in
+  let '(n, ls, t1) := row_loop cell_cap row_cap budget rows 0 (blen header + 1) in
   if negb t1 && tail_err then None
-  else let tr := t0 || t1 in Some (mk_fmt n tr (summary n tr ++ [10] ++ body)).
+  else let tr := t0 || t1 in Some (mk_fmt n tr (summary n tr ++ [10] ++ header ++ [10] ++ concat ls)).
 
 (** formatRows before the fix: header unchecked, cap applied to the body only. *)
 Definition format_rows_old (cell_cap row_cap byte_cap : N) (cols : list bytes)
            (rows : list (list cell)) (tail_err : bool) : option fmt_out :=
-  let '(n, body, t1) := row_loop cell_cap row_cap byte_cap rows 0 (join [44] cols ++ [10]) in
+  let '(n, ls, t1) := row_loop cell_cap row_cap byte_cap rows 0 (blen (join [44] cols) + 1) in
   if negb t1 && tail_err then None
-  else Some (mk_fmt n t1 (summary n t1 ++ [10] ++ body)).
+  else Some (mk_fmt n t1 (summary n t1 ++ [10] ++ join [44] cols ++ [10] ++ concat ls)).
 
 (* ------------------------------------------------------------ runDataQuery *)
 
